@@ -80,6 +80,33 @@ INVALID_TEXTS = ["start S\nstruct S { a: $A }\n",                               
                  "start Q\nstruct S { a: $A }\nterminal T { $A: () }\n"]                              # undefined start
 
 
+def build_script_proof(run):
+    """TLAPS: NeverStale and FailureIsHonest are invariants of BuildScript.tla for ANY set of versions (BuildScriptProof.tla,
+    92 obligations, ~25 s). A proof that no longer goes through is a defect of the specification (exit 2); a tlapm that
+    cannot be run at all only leaves a note in the evidence."""
+    import shutil, subprocess, tempfile
+    if not shutil.which("tlapm"):
+        run.notes["tlaps_BuildScriptProof"] = "tlapm not found"
+        return
+    d = tempfile.mkdtemp(prefix="tlaps_", dir=common.workdir("header_tlaps"))
+    for f in ("BuildScript.tla", "BuildScriptProof.tla"):
+        shutil.copy(os.path.join(common.SPEC, f), d)
+    try:
+        p = subprocess.run(["tlapm", "--threads", "8", "BuildScriptProof.tla"], cwd=d, capture_output=True, text=True, timeout=900)
+    except subprocess.TimeoutExpired:
+        run.notes["tlaps_BuildScriptProof"] = "tlapm did not finish within 900 s"
+        return
+    out = p.stdout + p.stderr
+    m = __import__("re").search(r"All (\d+) obligations? proved", out)
+    if m:
+        run.notes["tlaps_BuildScriptProof"] = "all %s obligations proved (any set of versions)" % m.group(1)
+    elif "obligations failed" in out:
+        raise ToolError("BuildScriptProof.tla: TLAPS no longer proves the invariants of BuildScript.tla (specification defect):\n" + out[-1500:])
+    else:
+        run.notes["tlaps_BuildScriptProof"] = "tlapm could not be run: " + out[-300:]
+    shutil.rmtree(d, ignore_errors=True)
+
+
 def build_script_replay(run, rng, accepted, rounds):
     """Every Build transition of the exhaustively explored BuildScript.tla (51 states: 4 grammar versions x 9 parser-file
     contents x outcome of the last step) is replayed on the real code: `kv fresh` performs the build script's three
@@ -197,7 +224,11 @@ def check(prop, tier, seed):
         s2 = s[:pos] + rng.choice([" ", "\n", "x", "\t"]) + s[pos:]
         if hashlib.sha256(s2.encode("utf-8")).hexdigest() == o.get("hash"):
             run.violation(vcase("freshness test succeeds for a different grammar text", src=s, other=s2))
+    import concurrent.futures as cf
+    bg = cf.ThreadPoolExecutor(max_workers=1)
+    proof = bg.submit(build_script_proof, run)
     build_script_replay(run, rng, [s for s, o in zip(srcs, resps) if o["res"]["t"] == "ok"], 3 if tier == "quick" else 40)
+    proof.result()
     if n_ok < 5:
         log("  note: only %d grammars of the header corpus were accepted by generate" % n_ok)
     run.notes["emitted_headers_checked"] = n_ok
